@@ -175,8 +175,81 @@ fn rand_bounds(r: &mut StdRng, bk: &[Vec<u8>]) -> Vec<(String, Vec<u8>)> {
     b
 }
 
+/// The scope of MC_Reader replayed against the code: every key set of <= 3 (thorough 4) keys over
+/// the 7-key universe {a, 0xFF}^(<=2), values that put outputs on transitions and final states,
+/// and every (lower, upper) bound pair over the universe plus one-byte extensions.
+pub fn exhaustive_reader(s: &mut Sess, tier: &str, with_aut: bool) {
+    let uni = universe(&[b'a', 0xFF], 2);
+    let mut bks = uni.clone();
+    bks.push(vec![b'a', 0xFF, 0xFF]);
+    bks.push(vec![0xFF, 0xFF, 0xFF]);
+    bks.push(vec![b'a', b'a', b'a']);
+    bks.push(vec![b'b']);
+    let maxkeys = if thorough(tier) { 4 } else { 3 };
+    let mut count = 0usize;
+    // all 2-state DFAs over classes {a, other} with exact hints and with hints fully weakened
+    let mut dfas: Vec<TableAut> = vec![];
+    if with_aut {
+        let mut cls = vec![2usize; 256];
+        cls[b'a' as usize] = 1;
+        for d in 0..16usize {
+            for m in 1..4usize {
+                let delta = vec![vec![1 + (d & 1), 1 + ((d >> 1) & 1)], vec![1 + ((d >> 2) & 1), 1 + ((d >> 3) & 1)]];
+                let mut a = TableAut { n: 2, start: 1, cls: cls.clone(), delta, matches: vec![m & 1 != 0, m & 2 != 0], can: vec![true; 2], always: vec![false; 2] };
+                a.exact_hints();
+                dfas.push(a.clone());
+                a.can = vec![true; 2];
+                a.always = vec![false; 2];
+                dfas.push(a);
+            }
+        }
+    }
+    for mask in 0u32..(1u32 << uni.len()) {
+        if (mask.count_ones() as usize) > maxkeys {
+            continue;
+        }
+        let items: Vec<Kv> = (0..uni.len())
+            .filter(|i| mask & (1 << i) != 0)
+            .map(|i| (uni[i].clone(), (3 * uni[i].len() as u64 + if uni[i].is_empty() { 7 } else { uni[i][0] as u64 }) * if i % 2 == 0 { 1 } else { 300 }))
+            .collect();
+        s.reset();
+        let f = match s.build(Front::MapInsert, &items, None) {
+            Some(f) => f,
+            None => continue,
+        };
+        if with_aut {
+            for (ai, a) in dfas.iter().enumerate() {
+                let aid = s.aut(a);
+                let b: Vec<(String, Vec<u8>)> = match (ai + mask as usize) % 4 {
+                    0 => vec![],
+                    1 => vec![("ge".into(), bks[(ai + count) % bks.len()].clone())],
+                    2 => vec![("gt".into(), bks[(ai + count) % bks.len()].clone()), ("le".into(), bks[(ai * 3 + 1) % bks.len()].clone())],
+                    _ => vec![("gt".into(), bks[(ai * 5 + count) % bks.len()].clone())],
+                };
+                s.stream(f, "raw", &b, Some(aid), true, usize::MAX);
+                count += 1;
+            }
+        } else {
+            for lo in 0..(1 + 2 * bks.len()) {
+                for hi in 0..(1 + 2 * bks.len()) {
+                    let mut b: Vec<(String, Vec<u8>)> = vec![];
+                    if lo > 0 {
+                        b.push((if lo % 2 == 1 { "ge" } else { "gt" }.into(), bks[(lo - 1) / 2].clone()));
+                    }
+                    if hi > 0 {
+                        b.push((if hi % 2 == 1 { "le" } else { "lt" }.into(), bks[(hi - 1) / 2].clone()));
+                    }
+                    s.stream(f, if count % 3 == 0 { "map" } else { "raw" }, &b, None, false, usize::MAX);
+                    count += 1;
+                }
+            }
+        }
+    }
+}
+
 pub fn c03(s: &mut Sess, seed: u64, tier: &str) {
     let mut r = rng(seed, 3);
+    exhaustive_reader(s, tier, false);
     let ins = inputs(&mut r, tier, true);
     for (_name, keys) in ins {
         let big = keys.len() > 2000;
@@ -208,6 +281,7 @@ pub fn c03(s: &mut Sess, seed: u64, tier: &str) {
 
 pub fn c04(s: &mut Sess, seed: u64, tier: &str) {
     let mut r = rng(seed, 4);
+    exhaustive_reader(s, tier, true);
     let ins = inputs(&mut r, tier, false);
     for (_name, keys) in ins {
         if keys.len() > 1500 {
@@ -238,6 +312,19 @@ pub fn c04(s: &mut Sess, seed: u64, tier: &str) {
                 let via = *pick(&mut r, &["raw", "map", "set"]);
                 let ws = r.gen_range(0, 2) == 0;
                 s.stream(f, via, &b, Some(aid), ws, usize::MAX);
+            }
+        }
+        // regular expressions compiled by regex-automata (its DFAs implement fst::Automaton):
+        // the reachable table is extracted through the trait, so TLC runs the very same automaton
+        for pat in &["a.*", "[a-f]+", ".*(ab|ba).*", "(x|y)?z*", "[^a]*a[^a]*", "\\x00*.{0,2}"] {
+            let dfa = match regex_automata::dense::Builder::new().anchored(true).build(pat) {
+                Ok(d) => d,
+                Err(_) => continue,
+            };
+            if let Some(a) = tabulate(&dfa, 300) {
+                let aid = s.aut(&a);
+                let b = if r.gen_range(0, 2) == 0 { vec![] } else { rand_bounds(&mut r, &bk) };
+                s.stream(f, *pick(&mut r, &["raw", "map", "set"]), &b, Some(aid), r.gen_range(0, 2) == 0, usize::MAX);
             }
         }
         // automata tabulated from the shipped ones
